@@ -19,6 +19,12 @@ CHECKS = {
                      "prices / valid bars wherever the reference denominator is non-zero, window periods n<=4 (5), every prefix up to t=2n+3 (3n+3); violations replayed natively with the "
                      "property's condition-number tolerance.",
                 technique="symbolic execution of rustc MIR into z3; quotient/polynomial normal forms + UF abstraction with sign lemmas, then NRA; native replay", design='4/C03'),
+    'C07': dict(text="Bounded model checking by solver: RSI, FastStochastic (scalar/bar), SlowStochastic, MFI in [0,100] and EfficiencyRatio in [0,1] exactly in real arithmetic whenever the "
+                     "reference denominator is non-zero, all positive real prices / valid bars, n<=4 (5), every prefix up to t=2n+3 (3n+3); violations replayed natively with the property's slack.",
+                technique="symbolic execution of rustc MIR into z3; UF abstraction with sign/ratio lemmas then NRA; native replay", design='4/C07'),
+    'C09': dict(text="Bounded model checking by solver: SD/MAD/TrueRange/ATR >= 0 and no sqrt of a negative value, Minimum <= Maximum, band/exit ordering for every multiplier in [0,1000], "
+                     "histogram identities (MACD with symbolic periods), SMA/WMA/EMA inside their hull, for all real inputs, n<=4 (5), t<=2n+3 (3n+3); violations replayed natively.",
+                technique="symbolic execution of rustc MIR into z3 (exact reals); native replay", design='4/C09'),
 }
 NA = {
     'C19': "decided by rustc's type checker once and for all; there is no input, state or schedule for an SMT/SAT solver to quantify over",
